@@ -6,6 +6,7 @@
 # and removed together with its build output at the end. /repo itself is never touched.
 set -u
 export GOFLAGS=-mod=mod GOPROXY=off GOSUMDB=off GOTOOLCHAIN=local
+HERE="$(cd "$(dirname "$0")/.." && pwd)"
 D="$(cd "$1" && pwd)"; shift
 PROP=$(python3 -c 'import json,sys; print(json.load(open(sys.argv[1]))["property"])' "$D/meta.json")
 DEMO=$(python3 -c 'import json,sys; print(json.load(open(sys.argv[1])).get("demo_path",""))' "$D/meta.json")
@@ -33,9 +34,9 @@ fi
 if [ -f "$D/demo.sh" ]; then
   if (cd "$WT" && bash "$D/demo.sh" >/dev/null 2>&1); then echo "demo.sh fails with patch: NO"; status=3; else echo "demo.sh fails with patch: yes"; fi
 fi
-if /verif/tools/baseline.sh "$WT" >/dev/null 2>&1; then echo "suite passes with patch: yes"; else echo "suite passes with patch: NO"; status=3; fi
+if "$HERE/tools/baseline.sh" "$WT" >/dev/null 2>&1; then echo "suite passes with patch: yes"; else echo "suite passes with patch: NO"; status=3; fi
 for c in "${CHECKS[@]}"; do
-  out=$(cd /verif && VERIF_REPO="$WT" VERIF_OUT_DIR="$WT/.verifout" ./check "$c" "$TIER" 2>&1); rc=$?
+  out=$(cd "$HERE" && VERIF_REPO="$WT" VERIF_OUT_DIR="$WT/.verifout" ./check "$c" "$TIER" 2>&1); rc=$?
   sig=$(echo "$out" | grep -m3 "sig=" | sed 's/^ *//' | tr '\n' ' ')
   echo "check $c $TIER: exit=$rc $(echo "$out" | grep -c '^VIOLATION') violation line(s) $sig"
   [ $rc -eq 1 ] || status=1
